@@ -1,19 +1,15 @@
 #!/usr/bin/env python3
-"""Fill the numbers column of the as-built table in DESIGN.md §10 from evidence/<id>.json (last run of each check)."""
+"""Fill the numbers column of the as-built table in DESIGN.md section 10 from lib/timings.json
+(recorded from the final runs against /repo: quick at VERIF_SEED=0 and thorough; wall time without the build)."""
 import json, os, re
 ROOT = os.path.dirname(os.path.dirname(os.path.abspath(__file__)))
+t = json.load(open(os.path.join(ROOT, "lib", "timings.json")))
 p = os.path.join(ROOT, "DESIGN.md")
 s = open(p).read()
-for k in [f"C{i:02d}" for i in range(1, 20)]:
-    try:
-        e = json.load(open(os.path.join(ROOT, "evidence", f"{k}.json")))
-    except OSError:
-        continue
-    cov = e.get("coverage", {})
-    ev = cov.get("evaluations") or cov.get("observed_evaluations") or 0
-    wall = e.get("wall_s") or 0
-    tier = e.get("tier") or "?"
-    cell = f"{ev:,} / {wall:.0f} s ({tier})".replace(",", " ")
+def fmt(d):
+    return f"{d['evaluations']:,} / {d['wall_s']:.0f} s".replace(",", " ")
+for k, v in t.items():
+    cell = "quick " + fmt(v["quick"]) + "; thorough " + fmt(v["thorough"])
     s = re.sub(rf"\| (<!--N:{k}-->)[^|]*\|", lambda m: f"| {m.group(1)} {cell} |", s)
 open(p, "w").write(s)
 print("as-built numbers updated")
